@@ -241,9 +241,9 @@ func checkC16(c *Ctx) Meta {
 
 	// ---- OWN: a queued frame is not overwritten by the next one (the C17 ownership rule as the premise of "lossless")
 	c.Rule("C16-OWN", "a received frame keeps its bytes until it is decoded: every frame handed to the receive queue owns a freshly allocated buffer", 1)
-	c.aliasFrom, c.aliasTo = "C17-OWN", "C16-OWN"
+	c.pushAlias("C17-OWN", "C16-OWN")
 	checkFrameOwnership(c)
-	c.aliasFrom, c.aliasTo = "", ""
+	c.popAlias()
 	// ---- RECV: the receiver sees decode failures as errors, never as a nil message
 	c.Rule("C16-RECV", "an undecodable frame reaches the receiver loop as an error: readRemoteMessage returns DecodeMessage's error (never a nil message with a nil error), and messageProcessor touches the message only behind the error test", 2)
 	if f := c.MustFn("C16-RECV", "fractal", "(*MessageReceiver).readRemoteMessage"); f != nil {
